@@ -268,3 +268,151 @@ fires('m40-limiter-undercount', ['C10'], [(UTIL, "        self._read_samples += 
 silent('t30-limiter-count-size', ['C10', 'C09', 'C19'], [(UTIL, "        self._read_samples += len(block) // self._bytes_per_sample\n", "        self._read_samples += size\n")], 'over-counting after a short final block is harmless')
 silent('t31-hop-gt', ['C10'], [(UTIL, "        if hop_dur >= block_dur:\n", "        if hop_dur > block_dur:\n")], 'hop_dur == block_dur is routed to the fixed reader by AudioReader')
 silent('t32-block-size-not', ['C10', 'C06'], [(UTIL, "        if self._block_size == 0:\n", "        if not self._block_size:\n")])
+
+# ------------------------------------------------------------------ C05 / C06 / C08: split() wiring
+fires('m50-region-start-from-end', ['C05'], [(CORE, "            token[0],\n            token[1],\n", "            token[0],\n            token[2],\n")])
+fires('m51-start-times-requested-window', ['C05'], [(CORE, "            token[1],\n            source.block_dur,\n", "            token[1],\n            analysis_window,\n")],
+      'requested window instead of the effective one (differs when window*rate is not an integer)')
+fires('m52-sw-ch-swapped', ['C05'], [(CORE, "            source.sr,\n            source.sw,\n            source.ch,\n        )\n        for token in token_gen", "            source.sr,\n            source.ch,\n            source.sw,\n        )\n        for token in token_gen")])
+fires('m53-frames-reversed', ['C05'], [(CORE, "    data = b\"\".join(data_frames)\n", "    data = b\"\".join(reversed(data_frames))\n")])
+fires('m54-duration-no-channels', ['C05', 'C16'], [(CORE, "        duration = len(self.data) / (\n            self.sampling_rate * self.sample_width * self.channels\n        )", "        duration = len(self.data) / (\n            self.sampling_rate * self.sample_width\n        )")])
+fires('m55-validator-roles', ['C05'], [(CORE, "            energy_threshold, source.sw, source.ch, use_channel=use_channel\n", "            energy_threshold, source.ch, source.sw, use_channel=use_channel\n")])
+fires('m56-mode-swapped', ['C05'], [(CORE, "    mode = StreamTokenizer.DROP_TRAILING_SILENCE if drop_trailing_silence else 0\n    if strict_min_dur:\n        mode |= StreamTokenizer.STRICT_MIN_LENGTH",
+                                     "    mode = StreamTokenizer.STRICT_MIN_LENGTH if drop_trailing_silence else 0\n    if strict_min_dur:\n        mode |= StreamTokenizer.DROP_TRAILING_SILENCE")])
+fires('m57-region-split-swaps-durations', ['C05'], [(CORE, "            self,\n            min_dur=min_dur,\n            max_dur=max_dur,\n            max_silence=max_silence,\n            drop_trailing_silence=drop_trailing_silence,\n            strict_min_dur=strict_min_dur,\n            **kwargs,\n        )\n\n    def plot(",
+                                                     "            self,\n            min_dur=min_dur,\n            max_dur=max_dur,\n            max_silence=max_silence,\n            drop_trailing_silence=strict_min_dur,\n            strict_min_dur=drop_trailing_silence,\n            **kwargs,\n        )\n\n    def plot(")])
+fires('m58-end-from-start-only', ['C05'], [(CORE, "object.__setattr__(self, \"end\", self.start + self.duration)", "object.__setattr__(self, \"end\", self.start + self.duration * self.channels)")])
+fires('m60-D5-reintroduced', ['C06'], [(CORE, "    min_length = _duration_to_nb_windows(\n        min_dur, analysis_window, math.ceil, -_EPSILON\n    )\n", "    min_length = _duration_to_nb_windows(min_dur, analysis_window, math.ceil)\n")], 'finding D5')
+fires('m61-max-round', ['C06'], [(CORE, "    max_length = _duration_to_nb_windows(\n        max_dur, analysis_window, math.floor, _EPSILON\n    )", "    max_length = _duration_to_nb_windows(\n        max_dur, analysis_window, round, _EPSILON\n    )")])
+fires('m62-guard-min-dur-lt', ['C06'], [(CORE, "    if min_dur <= 0:\n", "    if min_dur < 0:\n")])
+fires('m63-eps-sign-flipped', ['C06'], [(CORE, "        max_silence, analysis_window, math.floor, _EPSILON\n", "        max_silence, analysis_window, math.floor, -_EPSILON\n")])
+fires('m64-silence-guard-gt', ['C06'], [(CORE, "    if max_continuous_silence >= max_length:\n        err_msg = \"'max_silence' \"", "    if max_continuous_silence > max_length:\n        err_msg = \"'max_silence' \"")])
+fires('m65-window-requested-for-reader', ['C06', 'C05'], [(CORE, "        source = input\n        analysis_window = source.block_dur\n", "        source = input\n        analysis_window = kwargs.get(\"analysis_window\", source.block_dur)\n")])
+fires('m66-helper-no-eps', ['C06'], [(CORE, "    return int(round_fn(duration / analysis_window + epsilon))\n", "    return int(round_fn(duration / analysis_window))\n")])
+fires('m67-extra-guard', ['C06'], [(CORE, "    if max_silence < 0:\n        raise ValueError(f\"'max_silence' ({max_silence}) must be >= 0\")\n", "    if max_silence < 0:\n        raise ValueError(f\"'max_silence' ({max_silence}) must be >= 0\")\n    if max_silence > max_dur:\n        raise ValueError(\"max_silence too long\")\n")],
+      'rejects a combination the property says is accepted (max_silence > max_dur can still be < max_dur in windows? no: it is caught later anyway) -- extra guard with a different exception path')
+fires('m70-collect-then-yield', ['C08'], [(CORE, """        self._reinitialize()
+        while True:
+            frame = data_source.read()
+            self._current_frame += 1
+            if frame is None:
+                token = self._post_process()
+                if token is not None:
+                    yield token
+                break
+            token = self._process(frame)
+            if token is not None:
+                yield token
+""", """        self._reinitialize()
+        found = []
+        while True:
+            frame = data_source.read()
+            self._current_frame += 1
+            if frame is None:
+                token = self._post_process()
+                if token is not None:
+                    found.append(token)
+                break
+            token = self._process(frame)
+            if token is not None:
+                found.append(token)
+        for token in found:
+            yield token
+""")], 'whole stream buffered before the first token is handed over')
+fires('m71-split-generator-false', ['C08', 'C05'], [(CORE, "    token_gen = tokenizer.tokenize(source, generator=True)\n", "    token_gen = tokenizer.tokenize(source, generator=False)\n")])
+fires('m72-split-list', ['C08', 'C05'], [(CORE, "    region_gen = (\n        _make_audio_region(", "    region_gen = list(\n        _make_audio_region("), (CORE, "        for token in token_gen\n    )\n    return region_gen", "        for token in token_gen\n    )\n    return iter(region_gen)")])
+fires('m73-read-after-eos', ['C08'], [(CORE, """                token = self._post_process()
+                if token is not None:
+                    yield token
+                break
+""", """                token = self._post_process()
+                if token is not None:
+                    yield token
+                    break
+                if data_source.read() is None:
+                    break
+""")], 'end of stream requested twice when nothing is flushed')
+fires('m74-callback-filter', ['C08'], [(CORE, """            for token in token_gen:
+                callback(*token)
+            return""", """            for token in token_gen:
+                if len(token[0]) > 1:
+                    callback(*token)
+            return""")])
+fires('m75-list-mode-second-generator', ['C08'], [(CORE, "        return list(token_gen)\n", "        return list(self._iter_tokens(data_source))\n")])
+silent('t50-map-regions', ['C05', 'C06', 'C08'], [(CORE, """    region_gen = (
+        _make_audio_region(
+            token[0],
+            token[1],
+            source.block_dur,
+            source.sr,
+            source.sw,
+            source.ch,
+        )
+        for token in token_gen
+    )
+    return region_gen""", """    return map(
+        lambda token: _make_audio_region(
+            token[0], token[1], source.block_dur, source.sr, source.sw, source.ch
+        ),
+        token_gen,
+    )""")])
+silent('t51-inline-region', ['C05', 'C08'], [(CORE, """        _make_audio_region(
+            token[0],
+            token[1],
+            source.block_dur,
+            source.sr,
+            source.sw,
+            source.ch,
+        )
+        for token in token_gen""", """        AudioRegion(
+            b"".join(token[0]),
+            source.sampling_rate,
+            source.sample_width,
+            source.channels,
+            token[1] * source.block_dur,
+        )
+        for token in token_gen""")])
+silent('t52-guard-spelling', ['C06'], [(CORE, "    if min_dur <= 0:\n", "    if not min_dur > 0:\n")])
+silent('t53-unpack-token', ['C05', 'C08'], [(CORE, """        _make_audio_region(
+            token[0],
+            token[1],
+            source.block_dur,
+            source.sr,
+            source.sw,
+            source.ch,
+        )
+        for token in token_gen""", """        _make_audio_region(
+            frames,
+            first,
+            source.block_dur,
+            source.sr,
+            source.sw,
+            source.ch,
+        )
+        for frames, first, _last in token_gen""")])
+silent('t54-eps-literal', ['C06'], [(CORE, "        min_dur, analysis_window, math.ceil, -_EPSILON\n", "        min_dur, analysis_window, math.ceil, -1e-9\n")])
+
+# ------------------------------------------------------------------ C20 independence of earlier use
+fires('m80-reinit-no-contiguous', ['C20'], [(CORE, "    def _reinitialize(self):\n        self._contiguous_token = False\n", "    def _reinitialize(self):\n")])
+fires('m81-reinit-no-data', ['C20'], [(CORE, "        self._contiguous_token = False\n        self._data = []\n        self._tokens = []\n", "        self._contiguous_token = False\n        self._tokens = []\n")])
+fires('m82-reinit-no-state', ['C20'], [(CORE, "        self._state = self.SILENCE\n        self._current_frame = -1\n", "        self._current_frame = -1\n")])
+fires('m83-reinit-no-counter', ['C20', 'C01'], [(CORE, "        self._state = self.SILENCE\n        self._current_frame = -1\n", "        self._state = self.SILENCE\n")])
+fires('m84-validator-cache', ['C20'], [(UTIL, """        log_energy = signal.calculate_energy(
+            self._selector(data), self._energy_agg_fn
+        )
+        return log_energy >= self._energy_threshold""", """        if getattr(self, "_last", None) is not None and self._last[0] == len(data):
+            return self._last[1]
+        log_energy = signal.calculate_energy(
+            self._selector(data), self._energy_agg_fn
+        )
+        self._last = (len(data), log_energy >= self._energy_threshold)
+        return self._last[1]""")])
+fires('m85-silence-read-in-silence', ['C20'], [(CORE, """        if self._state == self.SILENCE:
+
+            if frame_is_valid:""", """        if self._state == self.SILENCE:
+
+            if frame_is_valid and self._silence_length < 1000000:""")], 'a leftover counter decides a branch')
+fires('m86-close-no-rewind', ['C20', 'C11'], [(IO, "    def close(self):\n        self._is_open = False\n        self.rewind()\n", "    def close(self):\n        self._is_open = False\n")])
+fires('m87-module-cache', ['C20'], [(CORE, "def _duration_to_nb_windows(\n    duration, analysis_window, round_fn=round, epsilon=0\n):", "_SEEN = {}\n\n\ndef _duration_to_nb_windows(\n    duration, analysis_window, round_fn=round, epsilon=0\n):"),
+                                    (CORE, "    if duration == 0:\n        return 0\n    return int(round_fn", "    if duration == 0:\n        return 0\n    _SEEN[duration] = analysis_window\n    return int(round_fn")])
+fires('m88-mutable-default', ['C20'], [(CORE, "    def _check_iter_others(self, others):\n", "    def _check_iter_others(self, others, seen=[]):\n")])
